@@ -32,7 +32,7 @@ CLAIMED["C05"] = dict(
 
 CLAIMED["C09"] = dict(
    text="Seeded networks of 0..capacity+2 simulated ESCs (capacity 4/8/16) with generated EEPROMs, stale station addresses (duplicates included), mailboxes, DC flags, 4/8 byte SII, drawn group assignment, run through the real MainDevice::init; oracle: count, station address register of every ring position, per-device identity/name/alias/DC support against the description of the device at that position, exactly-one-group membership, PRE-OP everywhere, Capacity error above capacity, empty groups for an empty network; a second batch injects SII busy polls and delayed PRE-OP/mailbox replies.",
-   note="Trusts the segment reference model (sim/src/esc) and the EEPROM image generator; chain topology; ports are not publicly readable and are not compared.",
+   note="Trusts the segment reference model (sim/src/esc) and the EEPROM image generator; chain topology; open ports are read through a cfg-gated accessor and compared with the link state each device reports.",
    technique="deterministic simulation: real init against an executable EtherCAT segment reference model under virtual time, seeded network configurations and device-side lag injection", section="DESIGN.md §4 C09")
 CLAIMED["C12"] = dict(
    text="Generated well-formed EEPROM images (random descriptions incl. NUL/non-ASCII strings, categories in any order with unknown ones interleaved, 4 Kbit..4 Mbit) served through the simulated SII register protocol (4/8 byte data window, busy polls); 20..50 (start word, length) ranges per device incl. odd lengths and the last words, typed reads, eeprom_size, description, and (via init) name/identity; every returned byte and count is compared with the image.",
